@@ -74,7 +74,7 @@ CLAIMS = {
             "the remaining time; from_future / from_future_result actual_subscribe (one undelayed task that hands the future's "
             "value to item_task / result_task); the drivers StreamObserverFuture::poll / TryStreamObserverFuture::poll (unbounded: every item the "
             "stream yields during a poll is relayed in order, Pending only when the stream itself was Pending (waker registered), done exactly at "
-            "the stream's end / first Err with the matching terminal; termination of the loop not claimed).  Kani: timer counts its delay from subscription however late it is subscribed "
+            "the stream's end / first Err with the matching terminal; termination of the loop not claimed).  Kani: timer counts its delay from subscription however late it is subscribed, timer_at never asks for less than the time remaining until its instant (ns resolution) "
             "(virtual clock, recording scheduler; loop-free); (bounded:) RepeatTask::poll on a virtual clock (consecutive sequence numbers, one fresh "
             "timer per accepted tick, never runs on a pending timer, retires when the task declines), FutureTask::poll, "
             "from_stream / from_stream_result drivers over scripted streams.", "§4 C08",
@@ -100,9 +100,11 @@ CLAIMS = {
             "with it; of_fn/start call their closure once on subscription; Kani: defer calls its supplier exactly once, on "
             "subscription; API-level clone independence (bounded, 3 items): a cloned pipeline subscribed twice gives the same "
             "output / runs its finalizer / polls its future once per subscription (take, skip, take_while, scan, reduce, last, "
-            "distinct_until_changed, default_if_empty, finalize, from_future).", "§4 C13",
-            "independence of clones is an ownership argument (no operator value holds a shared cell: a change that moves a "
-            "cell into the operator value changes a field type and ends undecided); DistinctKeyOp::actual_subscribe (Verus ICE)."),
+            "distinct_until_changed, default_if_empty, finalize, from_future); from_iter runs the user's into_iter() on subscription, once "
+            "per clone; delay_subscription counts its delay from the subscription of each clone (virtual clock).  Structural: the "
+            "ownership condition (no `...Op` struct under contract holds a shared mutable cell).", "§4 C13",
+            "independence of clones rests on that ownership condition plus the per-operator actual_subscribe contracts; "
+            "DistinctKeyOp::actual_subscribe (Verus ICE)."),
     "C14": ("Verus with an assumed channel/atomic contract: what the to_future / to_stream / complete_status observers put on "
             "the channel or flag for every source history (store before wake); CompleteStatus::{is_closed,is_completed,error_occur}; the "
             "consuming side ObservableStream::poll_next / ObservableFuture::poll over an assumed receiver contract (no Pending of its own: a waker "
